@@ -183,7 +183,8 @@ Definition process_presses (c : chv2) (active_layer : N) : outcome chv2 :=
                end
              else Ok c1) ;;
           if Nat.ltb prev_len (length (cv_active c2)) then
-            Ok (set_cv_queue (filter (fun qd => negb (q_press qd && mem_n (snd (q_coord qd)) (pp_acc st))) (cv_queue c2)) c2)
+            (* the countdown belonged to the consumed presses *)
+            Ok (set_cv_queue (filter (fun qd => negb (q_press qd && mem_n (snd (q_coord qd)) (pp_acc st))) (cv_queue c2)) (set_cv_until 0 c2))
           else Ok c2
       end
   end.
@@ -199,9 +200,10 @@ Definition drain_inputs (c : chv2) (drainq : list queued) (active_layer : N) : o
   else if (0 <? cv_until_change c) && (cv_prev_layer c =? active_layer) && (cv_prev_qlen c =? N.of_nat (length (cv_queue c))) then
     Ok (set_cv_until (cv_until_change c - 1) c, drainq)
   else
-    let c := mkchv2 (cv_chords c) (cv_queue c) (cv_active c) (cv_ignore c) (cv_cfg_ignore c) 0 active_layer
-                    (N.of_nat (length (cv_queue c))) (cv_next_coord c) in
     '(q1, dq1) <- drain_virtual (cv_queue c) drainq ;;
+    (* the remembered queue length does not count the virtual-key events, which never stay queued *)
+    let c := mkchv2 (cv_chords c) (cv_queue c) (cv_active c) (cv_ignore c) (cv_cfg_ignore c) 0 active_layer
+                    (N.of_nat (length q1)) (cv_next_coord c) in
     '(q2, achs, dq2) <- drain_releases q1 O (cv_active c) dq1 ;;
     c' <- process_presses (set_cv_active achs (set_cv_queue q2 c)) active_layer ;;
     Ok (c', dq2).
